@@ -19,6 +19,7 @@ func checkC02(p *Prog, c *Check) {
 	c02Summaries(p, c)
 	c02Literals(p, c)
 	c02Fired(p, c)
+	linearSearchRule(p, c, "C02-R9.member", "keyper/database.GetKeyperIndex", "$p1")
 	matchOperatorTable(p, c, "C02-R6.match")
 	c02SQL(p, c)
 	c02Sorter(p, c)
